@@ -32,6 +32,35 @@ def has(og, pat):
     return any(glob_match(pat, o) or (pat[-1] != '*' and glob_match(pat + '.*', o)) for o in og)
 
 
+def _selected_by_membership(lf, meta_op):
+    """The loop form of the signer selection: `for s in current_signers { if ids.contains(&s.party_id) { signers.push(s) } }`.  The
+    ids then decide by CONTROL which signers are pushed: every push of a current signer into a collection that reaches the metadata
+    sits behind the `true` outcome of `contains` on the open message's signer ids."""
+    from engine import flows_forward, track_result
+    body = lf.body
+    if meta_op[0] not in ('copy', 'move'):
+        return False
+    tests = [c for c in body.calls() if any(n.endswith('::contains') for n in c.names()) and len(c.args) >= 2
+             and has(fn_origins(lf, c.args[0], True), 'call:*OpenMessage::get_signers_id')
+             and has(fn_origins(lf, c.args[1], True), 'call:*EpochService::current_signers_with_stake')]
+    if not tests:
+        return False
+    true_edges = set()
+    for c in tests:
+        true_edges |= track_result(body, c.dest[0], +1).success_edges
+    pushes = []
+    for c in body.calls():
+        if any(n.endswith(('::push', '::insert', '::push_back', '::extend')) for n in c.names()) and len(c.args) >= 2 \
+                and has(fn_origins(lf, c.args[1], True), 'call:*EpochService::current_signers_with_stake'):
+            a0 = c.args[0]
+            if a0[0] in ('copy', 'move') and meta_op[1][0] in flows_forward(body, {a0[1][0]}, True):
+                pushes.append(c)
+    if not pushes or not true_edges:
+        return False
+    reach = body.reach([0], removed=true_edges)
+    return not any(c.bb in reach for c in pushes)
+
+
 def run(ctx):
     R = ctx.report
     ws = ctx.ws
@@ -115,8 +144,9 @@ def run(ctx):
                 ('aggregate_verification_key <- epoch_service.current_aggregate_verification_key()', has(og[4], 'call:*EpochService::current_aggregate_verification_key')),
                 ('signature <- (signed_entity_type, create_multi_signature result)', has(og[5], 'call:' + CMS[0]) and has(og[5], 'p#2')),
                 ('metadata: parameters <- epoch_service.current_protocol_parameters(), signers <- current_signers_with_stake filtered by open message signer ids',
-                 has(og[2], 'call:*EpochService::current_protocol_parameters') and has(og[2], 'call:*EpochService::current_signers_with_stake') and
-                 has(og[2], 'call:*OpenMessage::get_signers_id')),
+                 has(og[2], 'call:*EpochService::current_protocol_parameters') and
+                 ((has(og[2], 'call:*EpochService::current_signers_with_stake') and has(og[2], 'call:*OpenMessage::get_signers_id'))
+                  or _selected_by_membership(lf, c.args[2]))),
             ]
             for d, okk in checks:
                 if okk:
